@@ -29,7 +29,10 @@ Cmds    == {"server", "client", "model", "operation", "support"}
 \* the generated-once file is declared by `skip_exists: true`, with the documented name -A TodoList
 \* exclude_main_pkg: --exclude-main together with --main-package: the user keeps a hand-written main in
 \* cmd/<main-package> (user file u4 lives exactly there)
-OptSets == {"default", "regen_configure", "skip_models", "skip_operations", "skip_support", "exclude_main", "exclude_main_pkg", "impl_package", "custom_layout"}
+OptSets == {"default", "regen_configure", "skip_models", "skip_operations", "skip_support", "exclude_main", "exclude_main_pkg", "impl_package", "custom_layout", "stratoscale"}
+\* stratoscale: --template stratoscale; its configure file is generated code (regenerated on every run, like
+\* --regenerate-configureapi) and it generates no main
+RegenOpts == {"regen_configure", "stratoscale"}
 OptsOf(cmd) == IF cmd = "server" THEN OptSets
                ELSE {"default"}      \* `generate support` has no --regenerate-configureapi: it never rewrites an existing configure file
 
@@ -63,7 +66,7 @@ Responsible(cmd, opt, sp) ==
          \cup (IF opt = "skip_operations" THEN {} ELSE SOps(sp))
          \cup (IF opt = "skip_support" THEN {}
                ELSE {P("support", "-"), IF opt = "impl_package" THEN P("autoconf", "-") ELSE P("configure", "-")}
-                    \cup (IF opt \in {"exclude_main", "exclude_main_pkg"} THEN {} ELSE {P("main", "-")}))
+                    \cup (IF opt \in {"exclude_main", "exclude_main_pkg", "stratoscale"} THEN {} ELSE {P("main", "-")}))
     [] cmd = "client"    -> Models(sp) \cup COps(sp) \cup {P("facade", "-")}
     [] cmd = "model"     -> Models(sp)
     [] cmd = "operation" -> SOps(sp)
@@ -84,7 +87,7 @@ Gen(cmd, opt) ==
   /\ Room
   /\ LET R == Responsible(cmd, opt, spec)
          F(p) == Fresh(cmd, opt, spec, p) IN
-     files' = GenEffect(files, R, F, IsConf, Present, opt = "regen_configure")
+     files' = GenEffect(files, R, F, IsConf, Present, opt \in RegenOpts)
   /\ last' = [a |-> "gen", cmd |-> cmd, opt |-> opt]
   /\ hist' = Append(hist, [a |-> "gen", cmd |-> cmd, opt |-> opt])
   /\ UNCHANGED spec
@@ -155,14 +158,14 @@ UserFilesUntouched ==
   [][IsGen(last') => \A u \in UserFiles : files'[P("user", u)] = files[P("user", u)]]_vars
 \* the configure file is never rewritten once it exists unless explicitly requested
 ConfigureOnce ==
-  [][(IsGen(last') /\ Present(files[P("configure", "-")]) /\ last'.opt # "regen_configure")
+  [][(IsGen(last') /\ Present(files[P("configure", "-")]) /\ last'.opt \notin RegenOpts)
        => files'[P("configure", "-")] = files[P("configure", "-")]]_vars
 \* after a run every file it is responsible for is what a fresh generation would contain
 Converged ==
   [][IsGen(last') =>
        \A p \in Responsible(last'.cmd, last'.opt, spec) :
           \/ files'[p] = Fresh(last'.cmd, last'.opt, spec, p)
-          \/ IsConf(p) /\ Present(files[p]) /\ last'.opt # "regen_configure" /\ files'[p] = files[p]]_vars
+          \/ IsConf(p) /\ Present(files[p]) /\ last'.opt \notin RegenOpts /\ files'[p] = files[p]]_vars
 \* a run never removes anything and touches nothing outside its responsibility
 NothingElse ==
   [][IsGen(last') =>
